@@ -19,9 +19,19 @@ def changeable1 : Item := [some 1, some 1, none, some 2, none]
 def changeable2 : Item := [some 2, some 1, none, some 0, none]
 
 def aw : Cfg := .asWritten
+/-- the member /repo is after `fix:` c542973 (Merge fails only for addressed elements / unknown identifiers),
+    5e272e0 (selector with an empty list) and e4eb02d (SelectorMatch: an item without the selected field does not
+    match): what the probe phase of `TestHeap` selects on that tree -/
+def head : Cfg := { u := { mergeStrict := false, emptySelPanics := false, selNilPanics := false } }
+/-- `head` plus the series `fixes/c04` (01 flag kept on the in-place paths, 02 delete fails only for addressed
+    elements, 04 the fast path stores a copy) -/
+def patched : Cfg :=
+  { fastpathAdopts := false,
+    u := { mergeStrict := false, emptySelPanics := false, selNilPanics := false, inplaceAltersFlag := false, deleteStrict := false } }
 /-- the member with every candidate repair applied -/
 def repaired : Cfg :=
-  { fastpathRemote := false, u := { mergeStrict := false, selNilPanics := false, emptySelPanics := false, inplaceAltersFlag := false } }
+  { fastpathRemote := false, fastpathAdopts := false,
+    u := { mergeStrict := false, selNilPanics := false, emptySelPanics := false, inplaceAltersFlag := false, deleteStrict := false } }
 
 /-- a store holding `items` (set by the local application) -/
 def storeOf (items : List Item) : H := (full {} items).1
@@ -110,7 +120,7 @@ theorem flag_altered_delete_witness :
     r.1.readStore.map (·.get 1) = [none, some 1] := by decide
 
 /-- the three writes above leave every flag alone in the member whose in-place paths put the flag back
-    (`patches/C04-flag-altered-candidate.patch`); the values they carry are applied -/
+    (`fixes/c04/01-remote-write-keeps-changeability-flag.patch`); the values they carry are applied -/
 theorem flag_altered_repaired_witness :
     (remoteWrite repaired (storeOf [changeable0, changeable2]) [[none, some 0, none, some 2, none]] .nodata .nil).1.readStore
       = [[some 0, some 1, none, some 2, none], [some 2, some 1, none, some 2, none]] ∧
@@ -118,6 +128,31 @@ theorem flag_altered_repaired_witness :
       = [[some 0, some 1, none, some 2, none], changeable2] ∧
     (remoteWrite repaired (storeOf [changeable0, changeable2]) [] .nil (.data ⟨some (selId 0), some [none, some 0, none, some 0, none]⟩)).1.readStore
       = [[some 0, some 1, none, none, none], changeable2] := by decide
+
+/-- the repaired `deleteFilteredData` accepts the delete of limit 0 although limit 1 is not changeable, and keeps
+    limit 1 -/
+theorem unaddressed_blocks_delete_repaired_witness :
+    let r := remoteWrite patched (storeOf [changeable0, fixed1]) [] .nil (.data ⟨some (selId 0), none⟩)
+    r.2 = .done true 1 (some 2) ∧ r.1.readStore = [fixed1] := by decide
+
+/-- … and still rejects a delete that addresses the unchangeable limit -/
+theorem addressed_unwritable_delete_witness :
+    let r := remoteWrite patched (storeOf [changeable0, fixed1]) [] .nil (.data ⟨some (selId 1), none⟩)
+    r.2 = .done false 1 none ∧ r.1.readStore = [changeable0, fixed1] := by decide
+
+/-- the defects that stay (in-place paths, fast path for remote writes) are still there in the member /repo is now
+    and in the patched one -/
+theorem remaining_head_witness :
+    (remoteWrite head (storeOf [changeable0, fixed1]) [[some 1, some 1, none, some 0, none]] .nil .nil).1.readStore
+      = [[some 1, some 1, none, some 0, none]] ∧
+    (remoteWrite patched (storeOf [changeable0, fixed1]) [[some 1, some 1, none, some 0, none]] .nil .nil).1.readStore
+      = [[some 1, some 1, none, some 0, none]] ∧
+    (remoteWrite head (storeOf [changeable0, fixed1]) [[none, none, none, some 2, none]] .nodata .nil).2 = .done false 1 none ∧
+    (remoteWrite head (storeOf [changeable0, fixed1]) [[none, none, none, some 2, none]] .nodata .nil).1.readStore
+      = [[some 0, some 1, none, some 2, none], fixed1] ∧
+    (remoteWrite patched (storeOf [changeable0, fixed1]) [[none, none, none, some 2, none]] .nodata .nil).2 = .done false 1 none ∧
+    (remoteWrite patched (storeOf [changeable0, fixed1]) [[none, none, none, some 2, none]] .nodata .nil).1.readStore
+      = [[some 0, some 1, none, some 2, none], fixed1] := by decide
 
 /-! ### C11 -/
 
@@ -159,5 +194,12 @@ theorem failed_modifies_witness :
     let h1 := storeOf [changeable0, fixed1]
     let r := updateData aw lc h1 true true [[none, none, none, some 2, none]] .nodata .nil
     r.2 = .done false 1 none ∧ r.1.readStore ≠ h1.readStore := by decide
+
+/-- in the member whose fast path stores a copy the value handed in keeps reading what it read -/
+theorem pointer_private_witness :
+    let h1 := (updateData patched lc {} false true [changeable0, fixed1] .nil .nil).1
+    let h2 := (updateData patched lc h1 false true [changeable2] .nodata .nil).1
+    h1.readStruct 0 = [changeable0, fixed1] ∧ h2.readStruct 0 = [changeable0, fixed1] ∧
+      h2.readStore = [changeable0, fixed1, changeable2] := by decide
 
 end Spine.Heap
